@@ -97,6 +97,18 @@ CHECKS["C14"] = dict(
          "Trusted: z3, RefInterp. Operations outside the listed kinds are outside.",
     design="3/C14")
 
+CHECKS["C10"] = dict(
+    engine="symx",
+    technique="SMT (z3 LIA): symbolic execution of the real EPRSocket->Builder->assembler->Executor pipeline with symbolic Bell indices; Pauli-frame reading of the executed trace; symbolic execution of the classical post-processing",
+    text="For 8 API variants x generic/NV hardware config x 0..2 other live qubits x 1..2 (thorough 1..4) pairs, the Bell index of every "
+         "delivered pair is a z3 integer inside the link-layer response; the executor branches on it (forks) and z3 decides on every path "
+         "that pair i's qubit received exactly the Pauli of pair i's Bell state, no other qubit was touched, and nothing is corrected when "
+         "the expectation is off. Measure-directly post-processing is executed on symbolic rotation triples, Bell index and outcome "
+         "against the commutation table, stand-alone and end to end through recv_measure/create_measure.",
+    note="Trusted: z3; Pauli-frame semantics of the trace (exact for the Pauli corrections the SDK emits; any other gate is reported); "
+         "responses are delivered in order at the executor's wait points (other arrival orders: C12). `int` of build_epr is stubbed.",
+    design="3/C10")
+
 NOT_YET = "check not built yet in this revision (work in progress; see DESIGN.md section 3 for the planned solver-based check)"
 NOT_APPLICABLE = {}
 
